@@ -101,6 +101,9 @@ var curSched *sched
 // and the progress watchdog reports it. Free-running mode: wait until the other clients have completed
 // a few operations; if none of them makes any progress for 10 s while one of them sits in a lock of
 // the registry code, that is the same finding.
+// schedSharedOpts: filter option values built once, before the clients start, and used by all of them.
+var schedSharedOpts map[string]*lint.FilterOptions
+
 var stallCount int64
 
 func (s *sched) stall(c int) {
@@ -722,6 +725,35 @@ func genSched(seed uint64, prop, tier, mode string) *Plan {
 		return out
 	}()
 	stormN := g.Range(2, 6)
+	// shared option values: in a share of the filter storms all clients filter with the very same option value
+	// (same backing arrays): lists that are not in order, repeat entries and carry stray blanks
+	var sharedSrc, sharedNames *FilterOpts
+	if strings.HasPrefix(storm, "filter") && g.Chance(0.45) {
+		var sl []string
+		for t := g.Range(3, 9); t > 0; t-- {
+			sl = append(sl, pick(g, stormSrcs))
+		}
+		sharedSrc = &FilterOpts{IncludeSources: sl}
+		if g.Chance(0.3) {
+			sharedSrc = &FilterOpts{ExcludeSources: sl}
+		}
+		var nl []string
+		for _, j := range g.Perm(len(stormNames)) {
+			n := stormNames[j]
+			if g.Chance(0.3) {
+				n = pick(g, []string{" ", "\t", ""}) + n + pick(g, []string{" ", ""})
+			}
+			nl = append(nl, n)
+			if g.Chance(0.15) {
+				nl = append(nl, stormNames[j])
+			}
+		}
+		sharedNames = &FilterOpts{IncludeNames: nl}
+		if g.Chance(0.3) {
+			sharedNames = &FilterOpts{ExcludeNames: nl}
+		}
+		p.Knobs["storm_shared_options"] = true
+	}
 	// cold listings: in most listing storms every client issues the *same* sequence of listing
 	// operations on the same shared registries (which nobody has listed before), so that whatever
 	// a registry builds on first use is built by all clients at once
@@ -818,7 +850,13 @@ func genSched(seed uint64, prop, tier, mode string) *Plan {
 			if shared > 1 && g.Chance(0.3) {
 				r = g.Intn(shared)
 			}
-			ops = append(ops, Op{K: "filter", Reg: r, Opts: o, Note: "storm"})
+			note := "storm"
+			if sharedSrc != nil && kind == "filter-sources" {
+				o, r, note = sharedSrc, 0, "storm,sharedopts"
+			} else if sharedNames != nil && kind == "filter-names" {
+				o, r, note = sharedNames, 0, "storm,sharedopts"
+			}
+			ops = append(ops, Op{K: "filter", Reg: r, Opts: o, Note: note})
 			if v := modelFilter(meta, regModel(r), o); !v.Err {
 				local = append(local, &ModelReg{Sel: v.Sel, Cfg: regModel(r).Cfg})
 				if g.Chance(0.5) {
@@ -1201,6 +1239,13 @@ func execClientOp(p *Plan, shared []lint.Registry, cs *clientState, op *Op, full
 		if err != nil {
 			return txt("bad regexp")
 		}
+		if strings.Contains(op.Note, "sharedopts") {
+			// one option value (one set of backing arrays) used by every client, as workers deriving their
+			// registries from the same parsed command line would
+			if sh := schedSharedOpts[mustJSON(op.Opts)]; sh != nil {
+				fo = *sh
+			}
+		}
 		child, ferr := reg.Filter(fo)
 		if ferr != nil {
 			return txt("error: " + ferr.Error())
@@ -1287,6 +1332,19 @@ func runSched(p *Plan, keepLog bool, mode string) *RunResult {
 		}
 	}
 	log.Add("setup: %d shared registries", len(shared))
+	schedSharedOpts = map[string]*lint.FilterOptions{}
+	for _, ops := range p.Clients {
+		for i := range ops {
+			if ops[i].K == "filter" && strings.Contains(ops[i].Note, "sharedopts") && ops[i].Opts != nil {
+				k := mustJSON(ops[i].Opts)
+				if _, ok := schedSharedOpts[k]; !ok {
+					if fo, err := ops[i].Opts.real(); err == nil {
+						schedSharedOpts[k] = &fo
+					}
+				}
+			}
+		}
+	}
 
 	K := len(p.Clients)
 	sc := p.Schedule
